@@ -57,6 +57,11 @@ def parse_spec(line):
 
 def same_result(a, b):
     """implementation record vs model record: everything observable"""
+    if a["k"] in ("TIMEOUT", "CRASH") and b["k"] == "FUEL":
+        # both diverge: the real parser does not return (watchdog / stack overflow) and the model exhausts
+        # every bound the harness gives it - a grammar outside the quantifier (e.g. a closure whose body can
+        # succeed without consuming).  A parser that hangs where the model returns is still a disagreement.
+        return True
     if a["k"] != b["k"]:
         return False
     if a["k"] == "OK":
